@@ -624,6 +624,7 @@ func cmdCheck(id, tier string) int {
 	}
 	sort.Strings(sigs)
 	newViol := 0
+	extra := 0
 	var lines []string
 	for _, s := range sigs {
 		v := viol[s]
@@ -645,6 +646,12 @@ func cmdCheck(id, tier string) int {
 		os.WriteFile(path, art, 0o644)
 		reproduced := 0
 		const tries = 5
+		if newViol >= 8 {
+			// enough confirmed counterexamples: the remaining signatures are written out but not replayed
+			newViol++
+			extra++
+			continue
+		}
 		if c.noReplayConfirm {
 			reproduced = tries
 		} else {
@@ -667,6 +674,9 @@ func cmdCheck(id, tier string) int {
 			d = d[:1200] + "\n...(see replay file)"
 		}
 		fmt.Fprintf(os.Stderr, "--- %s: %s\n%s\n", id, v.Sig, d)
+	}
+	if extra > 0 {
+		lines = append(lines, fmt.Sprintf("(%d more violation signatures were found; their replay files are in %s)", extra, filepath.Join(verifDir, "replays", id)))
 	}
 	writeEvidence(c, tier, m, newViol, time.Since(t0), "")
 	for _, l := range lines {
